@@ -21,6 +21,7 @@ def make_scenarios(ctx, count):
         bridged = rng.random() < 0.35
         frames = [G.f_discover(rng, net, m=m, tos=0, bridged=bridged)]
         seq = rng.randint(1, 60000)
+        requeried = 0
         mtu_changes = {}
         for rnd in range(rng.randint(2, 4)):
             if rnd > 0 and rng.random() < 0.2:
@@ -95,6 +96,13 @@ def make_scenarios(ctx, count):
             for _ in range(nq):
                 seq = seq + 1 if seq < 0xFFFF else 1
                 frames.append(G.f_query(rng, net, m, seq=seq, bridged=bridged))
+                if rng.random() < 0.08:
+                    # the mapper repeats its Discover (its own transaction id) and then asks again under the number it used last:
+                    # every QueryResp carries the number of the Query it answers
+                    if rng.random() < 0.7:
+                        frames.append(G.f_discover(rng, net, m=m, tos=0, bridged=bridged, xid=(seq ^ rng.randint(1, 0xFFFF)) & 0xFFFF))
+                    frames.append(G.f_query(rng, net, m, seq=seq, bridged=bridged))
+                    requeried += 1
             if rng.random() < 0.3:
                 frames.append(G.f_reset(rng, net, m=m, tos=0))
                 frames.append(G.f_discover(rng, net, m=m, tos=0, bridged=bridged))
@@ -106,7 +114,7 @@ def make_scenarios(ctx, count):
                 frames.append(G.f_discover(rng, net, m=m, tos=0, bridged=bridged))
                 seq = seq + 1 if seq < 0xFFFF else 1
                 frames.append(G.f_query(rng, net, m, seq=seq, bridged=bridged))
-        s = H.Scenario("q%d" % i, meta=dict(frames=frames, own=own, mtu=cfg["mtu"], bridged=bridged, mtu_changes=mtu_changes))
+        s = H.Scenario("q%d" % i, meta=dict(frames=frames, own=own, mtu=cfg["mtu"], bridged=bridged, mtu_changes=mtu_changes, requeried=requeried))
         s.iface(0, **H.iface_kw(cfg)).glob(**G.global_kw(G.rand_global(rng, icon_size=50)))
         s.add("OPT sleep=0")
         shadow = None
@@ -315,6 +323,7 @@ def monitor(scn, sobj, rep, sf, ck):
         for lv in st["levels"]:
             if lv in (16, 32, 64, 128, 256, 512, 768, 1024):
                 rep.count("churn_level:%d" % lv)
+    rep.count("queries_repeated_under_the_number_used_last", sobj.meta.get("requeried", 0) if queries else 0)
     rep.evaluations += queries
     rep.count("queries_judged", queries)
     rep.count("observations_listed", listed_total)
@@ -348,6 +357,7 @@ def run(ctx):
     rep.need("queries_judged", c.get("queries_judged", 0), 2000)
     for name in ("fresh-observations-reported-after-the-bound-was-reached-and-drained", "more-bit", "bridged", "direct", "drain>=3-queries", "empty-query", "at-or-over-capacity", "mtu-changed-mid-history"):
         rep.need(name, c.get("reach:" + name, 0), 10)
+    rep.need("queries_repeated_under_the_number_used_last", c.get("queries_repeated_under_the_number_used_last", 0), 100)
     rep.need("churn_histories", c.get("churn_histories", 0), 40)
     rep.need("churn_more_than_1024_passed_through_one_undrained_session", c.get("churn_more_than_1024_passed_through_one_undrained_session", 0), 8)
     for lv in (256, 512, 1024):
